@@ -6,13 +6,14 @@ CONSTANTS Nib = {0, 1, 15}
           MaxKeys = 27
           TrackHash = FALSE
           MaxRoots = 0
+          MaxOps = 8
           Mode = "sim"
-          Depth = 40
-          MaxGen = 5
+          Depth = 45
+          MaxGen = 6
           CommitWeight = 3
           NKeys = 3
-INVARIANTS TreeInv StoreExact ReadBackInv
-PROPERTIES CommitOK
+INVARIANTS MTreeInv TracerInv StoreExact
+PROPERTIES MechRefines CommitOK
 CONSTRAINT Emit
 CONSTRAINT SimStop
 CHECK_DEADLOCK FALSE
